@@ -36,6 +36,19 @@ def _cleared_by_store(h, rel, recv, var):
     raise h.Missing(f"{rel}: cannot classify where the changes counter is cleared (Prepare / store)")
 
 
+def _skips_deleted(h, rel, recv, null, syslast):
+    """true: load01 returns on a row with the Null ID (deleted mark) before the reserved-range
+    check; false: the two checks are merged so that a Null-ID row falls through into the maps."""
+    body = h.func_body(rel, r"^func \(" + recv + r"\) load01\(", rel + " load01()")
+    m_null = re.search(r"if\s+id\s*==\s*" + null + r"\s*\{\s*\n\s*return\s+nil", body)
+    m_sys = re.search(r"if\s+id\s*<=\s*" + syslast + r"\s*\{", body)
+    if m_null and m_sys and m_null.start() < m_sys.start():
+        return "true"
+    if not m_null and re.search(r"if\s+\(?id\s*<=\s*" + syslast + r"\)?\s*&&\s*\(?id\s*!=\s*" + null + r"\)?\s*\{", body):
+        return "false"
+    raise h.Missing(f"{rel}: load01(): cannot classify the checks on a loaded ID (deleted mark / reserved range)")
+
+
 def _loop(h, rel, recv, fn, pat):
     body = h.func_body(rel, r"^func \(" + recv + r"\) " + fn + r"\(", rel + " " + fn)
     if not re.search(pat, body):
@@ -62,11 +75,13 @@ def collect(h):
 
     rel = BASE + "qnames/impl.go"
     items.append(("reg_qname_needs_version", "bool", _needs_version(h, rel, r"names \*QNames"), rel + " load()"))
+    items.append(("reg_qname_skips_deleted", "bool", _skips_deleted(h, rel, r"names \*QNames", r"istructs\.NullQNameID", r"istructs\.QNameIDSysLast"), rel + " load01()"))
     items.append(("reg_qname_changes_cleared_by_store", "bool", _cleared_by_store(h, rel, r"names \*QNames", "names"), rel + " Prepare()/store()"))
     _loop(h, rel, r"names \*QNames", "collect", r"for\s+id\s*:=\s*names\.lastID\s*\+\s*1\s*;\s*id\s*<\s*MaxAvailableQNameID\s*;\s*id\+\+")
     h.find(rel, r"lastID:\s*istructs\.QNameIDSysLast\s*,", "qnames: initial lastID = QNameIDSysLast")
     rel = BASE + "containers/impl.go"
     items.append(("reg_cont_needs_version", "bool", _needs_version(h, rel, r"cnt \*Containers"), rel + " load()"))
+    items.append(("reg_cont_skips_deleted", "bool", _skips_deleted(h, rel, r"cnt \*Containers", r"NullContainerID", r"ContainerNameIDSysLast"), rel + " load01()"))
     items.append(("reg_cont_changes_cleared_by_store", "bool", _cleared_by_store(h, rel, r"cnt \*Containers", "cnt"), rel + " Prepare()/store()"))
     _loop(h, rel, r"cnt \*Containers", "collect", r"for\s+id\s*:=\s*cnt\.lastID\s*\+\s*1\s*;\s*id\s*<\s*MaxAvailableContainerID\s*;\s*id\+\+")
     h.find(rel, r"lastID:\s*ContainerNameIDSysLast\s*,", "containers: initial lastID = ContainerNameIDSysLast")
@@ -92,6 +107,13 @@ def collect(h):
     else:
         raise h.Missing(f"{rel}: cannot classify how renameQName writes its rows (store() / two Puts)")
     items.append(("reg_rename_atomic", "bool", atomic, rel + " renameQName()"))
+
+    # qrename.Rename renames in the QNames view only (the Singletons view keeps the old name: finding C10-F2)
+    rel = "pkg/istructsmem/qrename/provide.go"
+    body = h.func_body(rel, r"^func Rename\(", rel + " Rename()")
+    if not re.fullmatch(r"\s*return\s+qnames\.Rename\(storage,\s*oldQName,\s*newQName\)\s*", body):
+        raise h.Missing(f"{rel}: Rename(): expected `return qnames.Rename(storage, oldQName, newQName)` only "
+                        "(if Rename now also moves the singleton row, the C10 model must follow: findings/C10/C10-F2.md)")
 
     # vers.Versions: Put caches the value before writing it; Prepare re-reads without clearing the cache
     rel = BASE + "vers/impl.go"
